@@ -6,7 +6,7 @@ def run(ctx):
                               "c15_outage_reads", "c15_outage_writes", "c15_dead_frozen", "c15_cleanup_invisible",
                               "c15_cleanup_purges", "c15_old_mirror_refuted", "c15_old_atomic_refuted_cursor",
                               "c15_old_atomic_refuted_eager", "c15_old_stale_writeback_refuted"])],
-        harness=("TestVerif_C15", ["kmd/common.go", "kmd/creds.go", "kmd/faultdb.go", "kmd/vdevice.go", "kmd/c15.go"]),
+        harness=("TestVerif_C15", ["kmd/common.go", "kmd/creds.go", "kmd/faultdb.go", "kmd/vdevice.go", "kmd/storeenv.go", "kmd/c15.go"]),
         cases=("CasesC15.v", [("c15_history_mismatches", "storage histories with statement-level faults on real SQLite = model run (results of every op, both stores after every synchronisation)"),
                               ("c15_handler_mismatches", "driven handler requests in up/slow/dead mode = model handler classes (what reaches the primary, cache untouched, served or refused)")],
                "CasesC15.idx"),
